@@ -89,13 +89,14 @@ PROPS = {
         assumptions=["reader obeys io.Reader: every call with len(p)>0 delivers >=1 byte or a non-nil error ((0,nil) forever excluded: ReaderState.legal)", "request sizes < 2^64", "error kinds other than io.EOF are not distinguished", "Skip() and the int count returned beside an error are not modelled",
                      "real OS readers are abstracted by the io.Reader contract (delivery schedule)"],
         trusted=COMMON_TRUST + ["schedReader / failWriter fault injectors in harness/ops_io.go"]),
-    "C11": P(11, ["C11"],
-        rule="CORR: model obs == Go obs for every tr.* op (dump of result tree, root, unchanged/shared flags, error class, panic); PROP on the Go observation with spec helpers: read-back = written node, every sibling of the path = original node "
+    "C11": P(11, ["C11", "C11b"], extra_modules=["ZtypV.Props.C11b"],
+        rule="tr2.* ops (direct node/link API: IsLeaf/Left/Right/RebindLeft/RebindRight, NewPairNode, ZeroNode, Identity, Link.Wrap, DeeperSetter, SummaryInto, link reuse): CORR = model built from Link closures (Model/Tree2) equals the Go observation; PROP = result equals reference semantics LinkExpr.den/setNode, eq-groups identical, composed link = setter of concatenated index, flags new/other/unchanged/shared/self/kids/fresh/table/method = 1. "
+             "CORR: model obs == Go obs for every tr.* op (dump of result tree, root, unchanged/shared flags, error class, panic); PROP on the Go observation with spec helpers: read-back = written node, every sibling of the path = original node "
              "(or zero node inside an expanded summary), root = branch root over original siblings (= write into materialised zero subtree), summarise keeps root, unchanged=1 shared=1 (Go checks pointer identity of all off-path nodes and the dump/root of the original), "
              "errors only nav and exactly when the path meets a leaf that is not (expand and zero hash of the remaining height); fills: root = merk; quick: all shapes to depth 3 x gindex 1..63 x expand x leaf kinds (seed 10% slice), random trees depth <= 12 with up to 64-bit indices, boundary stream; thorough: exhaustive",
-        explanation="ZtypV.Props.C11.*: get/set, off-path identity, sibling/spine description, error independence, no panic, expansion == write into materialised tree, only zero summaries expand, summarise preserves root, fill roots = merk, gbits/toPath = binary expansion; for every tree, path and pair hash",
-        assumptions=["memo field of PairNode erased (MerkleRoot recomputed)", "gindex 0 is not a generalized index: CORR only", "fill depth >= 64 CORR only (uint64 shift wraps to 0; Model/Tree.lean fills use 2^depth on naturals, faithful below depth 64)", "fillToLength law needs length > 0", "Gindex64 bit iteration = gbits (C16)"],
-        trusted=COMMON_TRUST + ["tree text notation parser/dumper written twice (Go and Lean)", "pointer-identity checks in harness/ops_tree.go"]),
+        explanation="ZtypV.Props.C11.*: get/set, off-path identity, sibling/spine description, error independence, no panic, expansion == write into materialised tree, only zero summaries expand, summarise preserves root, fill roots = merk, gbits/toPath = binary expansion; for every tree, path and pair hash; C11b_*: two-stage Setter+Link = setNode, Wrap = Kleisli composition with Identity neutral and associative, DeeperSetter = write below node then link, setter composition, SummaryInto = summarizeInto, ZeroNode = root of the materialised zero tree, eval = den for all link programs",
+        assumptions=["memo field of PairNode erased (MerkleRoot recomputed)", "gindex 0 is not a generalized index: CORR only", "fill depth >= 64 CORR only (uint64 shift wraps to 0; Model/Tree.lean fills use 2^depth on naturals, faithful below depth 64)", "fillToLength law needs length > 0", "Gindex64 bit iteration = gbits (C16)", "Gindex64 paths <= 63 bits so ZeroHashes[depth+1] stays in range", "DeeperSetter on indices 0..3 and ZeroNode(>=65) panic by contract: CORR only"],
+        trusted=COMMON_TRUST + ["tree text notation parser/dumper written twice (Go and Lean)", "pointer-identity checks in harness/ops_tree.go", "link-expression parser/evaluator written twice (Go and Lean)"]),
     "C12": P(12, ["C12"], stateful=True,
         rule="histories: mk, sum (1..3 summarised positions picked from the real backing; exhaustively every single position, thorough: every pair, of small values), then every read (obs, len, blen, rd, iter ro/idx) and one mutation followed by obs; "
              "CORR vs the object machine (summarizeInto + the same readers/mutators); PROP vs the plain value: root always equal; bytes/components/iterator items equal or an error, never different; no panic; distinct = distinct (type shape, positions, op, outcome)",
